@@ -17,6 +17,8 @@ namespace Grenad.R
 inductive IoErr where
   | unexpectedEof
   | invalidSeek
+  | interrupted                -- `ErrorKind::Interrupted` from an abstract writer
+  | other (tag : Nat)          -- any other error of an abstract writer
   deriving Repr, DecidableEq
 
 /-- `Err(..)` values of the crate (`Error`, `io::Error`). -/
@@ -25,6 +27,7 @@ inductive RErr where
   | invalidFormatVersion
   | invalidCompressionType
   | cursor                     -- an `Err(_)` returned by a call on the external cursor
+  | decompress                 -- an `Err(_)` returned by the external codec
   deriving Repr, DecidableEq
 
 /-- How a translated function can fail: a Rust panic, or an `Err` returned through `?` / `return Err`. -/
@@ -146,6 +149,33 @@ structure Src where
   match s.readN n with
   | (.ok bs, s') => (.ok (beValue bs), s')
   | (.error e, s') => (.error e, s')
+
+/-- `reader.take(n)` followed by `read_to_end`: at most `n` bytes, fewer when the source ends first -/
+@[inline] def Src.readUpTo (s : Src) (n : Nat) : List UInt8 × Src :=
+  ((s.bytes.drop s.pos).take n, { s with pos := min (s.pos + n) (max s.pos s.bytes.length) })
+
+/-- the result of the external codec: `none` is `Err(_)` -/
+@[inline] def liftDecompress (r : Option (List UInt8)) : M (List UInt8) :=
+  match r with
+  | some raw => pure raw
+  | none => throw (Fail.err RErr.decompress)
+
+/-- the result of the external compressor: `none` is `Err(_)` (an `io::Error`) -/
+@[inline] def liftCompress (r : Option (List UInt8)) : M (List UInt8) :=
+  match r with
+  | some out => pure out
+  | none => throw (Fail.err (RErr.io (IoErr.other 0)))
+
+/-- `<[u8; N]>::try_from(slice).map(uN::from_be_bytes).unwrap()` -/
+@[inline] def beValueN (n : Nat) (bs : List UInt8) : M Nat :=
+  if bs.length = n then pure (beValue bs) else throw (Fail.panic "called `Result::unwrap()` on an `Err` value: TryFromSliceError")
+
+/-- `bytes.chunks_exact(n)` read as big-endian integers (the remainder is dropped) -/
+def chunksBE (n : Nat) (bs : List UInt8) : List Nat :=
+  if h : n = 0 then [] else
+  if bs.length < n then [] else beValue (bs.take n) :: chunksBE n (bs.drop n)
+termination_by bs.length
+decreasing_by simp only [List.length_drop]; omega
 
 /-- A byte sink that accepts everything (`Vec<u8>`): `write_uN::<Endian>` appends. -/
 abbrev Sink := List UInt8
